@@ -42,6 +42,8 @@ type Check struct {
 
 	// RaceRelevant decides whether a race report signature refutes this property.
 	RaceRelevant func(sig RaceSig) bool
+	// NoEarlyExit keeps running all scenarios even after violations (every scenario has its own finding key).
+	NoEarlyExit bool
 	// Post runs in the parent after all scenarios were merged (aggregate verdicts).
 	Post func(c *Ctx)
 	// CrashKey may refine the violation key for a crashed child (default: class + panic + frame).
@@ -170,7 +172,7 @@ func RunIsolated(ch *Check, c *Ctx, onlyScenario string) {
 	var wg sync.WaitGroup
 	var keepMu sync.Mutex
 	for ji, j := range jobs {
-		if c.NumViolations() >= 3 {
+		if !ch.NoEarlyExit && (c.NumViolations() >= 3 || c.ViolationHits() >= 12) {
 			// enough witnesses: do not spend the remaining budget on a tree that is already refuted
 			c.Count("jobs.skipped_after_3_violation_keys", 1)
 			continue
@@ -201,7 +203,7 @@ func RunIsolated(ch *Check, c *Ctx, onlyScenario string) {
 				cmd.Stderr = ef
 				cmd.Env = append(os.Environ(), "VERIF_CHILD=1", "GOTRACEBACK=all")
 				if j.race {
-					cmd.Env = append(cmd.Env, "GORACE=halt_on_error=0 log_path="+raceLog)
+					cmd.Env = append(cmd.Env, "GORACE=halt_on_error=0 exitcode=0 log_path="+raceLog)
 				}
 				timedOut := false
 				if err := cmd.Start(); err != nil {
